@@ -54,6 +54,13 @@ def _extra():
         add("known-register-compare", "unsigned char i, r;", "Y = i + 1; r = 0; X = 5; if (X %s 3) r = 1;" % op, {"init": {"i": 0}, "expect": {"r": ex}}, "X = 5 %s 3" % op)
         add("known-register-compare", "unsigned char i, r;", "X = i + 1; r = 0; Y = 3; if (Y %s 3) r = 1;" % op, {"init": {"i": 0}, "expect": {"r": int(eval("3 %s 3" % op))}}, "Y = 3 %s 3" % op)
     add("known-register-compare", "unsigned char i, rx, ry;", "Y = i + 1; for (X = 10; X > 2; X--) Y++; rx = X; ry = Y;", {"init": {"i": 0}, "expect": {"rx": 2, "ry": 9}}, "countdown with a known start")
+    # the same element designated through X, through Y, by a constant and by a variable subscript: every statement form must do the same thing (C15)
+    for idx, pre in (("X", "X = b; "), ("Y", "Y = b; "), ("2", ""), ("b", "")):
+        for stmt, lo, hi in (("t[%s]++;", 0x00, 0x11), ("t[%s]--;", 0xfe, 0x10), ("++t[%s];", 0x00, 0x11), ("t[%s] += 1;", 0x00, 0x11), ("t[%s] = s;", 0x34, 0x12), ("t[%s] = 1000;", 1000 & 255, 1000 >> 8)):
+            add("index-forms-short", "short t[4]; unsigned char b; short s;", pre + stmt % idx, {"init": {"b": 2}, "init16": {"s": 0x1234}, "init_addr": {"t+2": 0xff, "t+6": 0x10}, "expect": {"t+2": lo, "t+6": hi}}, "%s with index %s" % (stmt % idx, idx))
+        add("index-forms-short", "short t[4]; unsigned char b; short s;", pre + "s = t[%s];" % idx, {"init": {"b": 2}, "init_addr": {"t+2": 0x78, "t+6": 0x56}, "expect16": {"s": 0x5678}}, "s = t[%s]" % idx)
+        for stmt, v in (("c[%s]++;", 0x00), ("c[%s]--;", 0xfe), ("c[%s] += 3;", 0x02), ("c[%s] = 7;", 7), ("c[%s] <<= 1;", 0xfe)):
+            add("index-forms-char", "unsigned char c[4]; unsigned char b;", pre + stmt % idx, {"init": {"b": 2}, "init_addr": {"c+2": 0xff}, "expect": {"c+2": v, "c+1": 0, "c+3": 0}}, "%s with index %s" % (stmt % idx, idx))
     # loops: for / while / do-while agree
     for n in (0, 1, 5, 200):
         tot = sum(range(n)) & 255
